@@ -34,7 +34,7 @@ class Cfg:
 INT_POOL = [0, 1, 2, 3, 5, 7, 10, -1, -2, 255]
 BIG_POOL = [(1 << 63) - 1, 1 << 63, (1 << 64) - 1, -(1 << 63), (1 << 32), -(1 << 31)]
 STR_POOL = [b"", b"a", b"ab", b"abc", b"ba", b"foo", b"foobar", b"bar", b"a\0b", b"\xff\x80", b"x%y", b'q"q', b"b\\s", b"\n",
-            b"\\x41", b"\\101z", b"\\0", b"c\\t", b"\x01z", b"\x03", b"\x1f8", b"\x027"]
+            b"\\x41", b"\\101z", b"\\0", b"c\\t", b"\x01z", b"\x03", b"\x1f8", b"\x027", b"foo\\\nbar", b"\\\n", b"a\tb\\\nc"]
 RE_POOL = [b"a", b"^a", b"b$", b"a.c", b"fo*", b"o+b", b"^$", b"ab|ba", b"(ab)+", b"x?y", b"^foo", b"."]
 NAME_POOL = ["A", "B", "C", "X", "Y", "Z", "A", "B", "X", "add", "length", "T"]
 
